@@ -9,6 +9,8 @@ GNext ==
           NewStream(s, kind, p, a, mode) /\ (att # "A" => a = "none" /\ mode = "imm")
           /\ H([a |-> "NewStream", s |-> s, kind |-> kind, p |-> p, ans |-> a, mode |-> mode])
      \/ \E s \in Streams : Answer(s) /\ H([a |-> "Answer", s |-> s])
+     \/ \E s \in Streams : StreamFailed(s) /\ H([a |-> "StreamFailed", s |-> s])
+     \/ \E s \in Streams : LateClosed(s) /\ H([a |-> "LateClosed", s |-> s])
      \/ \E a \in {"A", "B", "none"} : SetAttacher(a) /\ H([a |-> "SetAttacher", who |-> a])
      \/ \E k \in Conns, c \in Circs, late \in BOOLEAN : ViaConnect(k, c, late) /\ H([a |-> "ViaConnect", k |-> k, c |-> c, late |-> late])
      \/ ConfAck /\ H([a |-> "ConfAck"])
